@@ -277,7 +277,7 @@ struct LenpHarness : Harness {
                     const size_t hoff = hvia ? (size_t)(o.geti("hoff") & 7) : 0, hextra = hvia == 2 ? (size_t)(o.geti("hextra") & 3) : 0;
                     unsigned char *base = huge_base();
                     if (hvia && !base) { c.ops_done--; c.execs--; return; }
-                    if (hvia && n > (uint64_t)SSIZE_MAX - 16) { c.ops_done--; c.execs--; return; }   // the buffer object itself could not describe it
+                    if ((hvia == 1 || hvia == 2) && n > (uint64_t)SSIZE_MAX - 16) { c.ops_done--; c.execs--; return; }   // the buffer object itself could not describe it (a chunk list can: its chunks are smaller)
                     ByteBuffer hb; hb.data = base; hb.offset = hoff; hb.used = hoff + (size_t)n + hextra; hb.size = hb.used + (size_t)(o.geti("hextra") & 1);
                     const size_t n1 = hvia == 3 ? (size_t)(n / 3) : 0;   // two adjacent chunks behind one that is skipped and an empty one
                     ByteBuffer harr[4];
